@@ -564,7 +564,7 @@ fn normalize(root: &[String], segs: &[&str]) -> Option<Vec<String>> {
 
 pub fn c07(ctx: Arc<Ctx>) {
 	ctx.rule(
-		"real `versatiles serve` binary with a folder root and the equivalent tar root, mounted at / and under a URL prefix; canary files next to the root, above it and at an absolute path; \
+		"real `versatiles serve` binary with a folder root and the equivalent tar root, mounted at / and under a URL prefix, tar roots with symbolic/hard link members naming outside files (one archive above 32 MiB), and a folder root spelled through a symbolic link followed by '..' (relative and absolute, with and without prefix); canary files next to the root, above it and at an absolute path; \
 		 requests: every sequence of <= 4 segments over {a.txt, d, e.txt, canary.txt, ., .., empty, %2e%2e, %2E., ..%2f, %5c.., <root name>, <sibling name>, secret.txt and backup (which exist outside the root only as .gz/.br)} with and without trailing slash, plus absolute-path smuggling targets; raw request targets (no client-side normalisation). \
 		 oracle: a 200 body (decoded) equals the file inside the root that the path resolves to and never contains a canary; plain paths to existing files are served. non-trivial = request targets containing a dot, empty or encoded segment",
 	);
@@ -590,6 +590,48 @@ pub fn c07(ctx: Arc<Ctx>) {
 	// equivalent tar
 	let members: Vec<(String, Vec<u8>)> = files.iter().map(|(p, c)| (p.to_string(), c.clone())).collect();
 	std::fs::write(base.join("www.tar"), codec::tar_write(&members, codec::TarLayout { dot_prefix: false, dir_entries: false, gnu: false, reversed: false, meta_last: false })).unwrap();
+	// tar archives that also carry link members (symbolic and hard) naming files outside the archive; one of them
+	// above 32 MiB (plausible size threshold for another loading strategy)
+	let mut linked = codec::tar_write(&members, codec::TarLayout { dot_prefix: false, dir_entries: false, gnu: false, reversed: false, meta_last: false });
+	linked.truncate(linked.len() - 1024);
+	for (name, target, flag) in [("link.txt", base.join("canary.txt").to_string_lossy().to_string(), b'2'), ("rel.txt", "../canary.txt".to_string(), b'2'), ("d/up.txt", "../../www-internal/canary.txt".to_string(), b'2'), ("hard.txt", "../canary.txt".to_string(), b'1'), ("canary.txt", base.join("canary.txt").to_string_lossy().to_string(), b'2')] {
+		linked.extend(codec::tar_link_header(name, &target, flag));
+	}
+	linked.extend(std::iter::repeat(0u8).take(1024));
+	std::fs::write(base.join("wwwlinks.tar"), &linked).unwrap();
+	{
+		// 34 MiB archives: one with symbolic link members only, one with a hard link member as well
+		let pad = vec![b'p'; 34 * 1024 * 1024];
+		let m = vec![("big.bin".to_string(), pad)];
+		let tail = codec::tar_write(&m, codec::TarLayout { dot_prefix: false, dir_entries: false, gnu: false, reversed: false, meta_last: false });
+		let mut head = codec::tar_write(&members, codec::TarLayout { dot_prefix: false, dir_entries: false, gnu: false, reversed: false, meta_last: false });
+		head.truncate(head.len() - 1024);
+		let mut sym = head.clone();
+		for (name, target) in [("link.txt", base.join("canary.txt").to_string_lossy().to_string()), ("d/up.txt", sibling.join("canary.txt").to_string_lossy().to_string()), ("rel.txt", "a.txt".to_string())] {
+			sym.extend(codec::tar_link_header(name, &target, b'2'));
+		}
+		let mut hard = sym.clone();
+		hard.extend(codec::tar_link_header("hard.txt", "../canary.txt", b'1'));
+		sym.extend_from_slice(&tail);
+		hard.extend_from_slice(&tail);
+		std::fs::write(base.join("wwwbig.tar"), &sym).unwrap();
+		std::fs::write(base.join("wwwbighard.tar"), &hard).unwrap();
+	}
+	// a root spelled through a symbolic link and '..': app/current -> ../releases/42, --static current/../shared
+	// names releases/shared (a copy of the root), while the lexically shortened app/shared holds canaries
+	let app = base.join("app");
+	let shared_real = base.join("releases/shared");
+	std::fs::create_dir_all(base.join("releases/42")).unwrap();
+	std::fs::create_dir_all(shared_real.join("d")).unwrap();
+	std::fs::create_dir_all(app.join("shared/d")).unwrap();
+	for (p, c) in &files {
+		std::fs::write(shared_real.join(p), c).unwrap();
+	}
+	for (p, c) in [("a.txt", "CANARY-LEXICAL-ROOT-A"), ("canary.txt", "CANARY-LEXICAL-ROOT"), ("d/e.txt", "CANARY-LEXICAL-ROOT-E"), ("d/index.html", "CANARY-LEXICAL-ROOT-INDEX")] {
+		std::fs::write(app.join("shared").join(p), c).unwrap();
+	}
+	std::os::unix::fs::symlink("../releases/42", app.join("current")).unwrap();
+	std::fs::write(base.join("releases/canary.txt"), "CANARY-RELEASES").unwrap();
 	// a tile source is required by the CLI
 	let rt = crate::memsource::runtime(1);
 	let mut tiles = TileMap::new();
@@ -618,17 +660,35 @@ pub fn c07(ctx: Arc<Ctx>) {
 		seqs.extend(next.iter().cloned());
 		frontier = next;
 	}
-	let mounts: Vec<(&str, Vec<String>, &str, bool)> = vec![
-		("folder at /", vec![tfile.clone(), "--static".into(), "www".into()], "", false),
-		("tar at /", vec![tfile.clone(), "--static".into(), "www.tar".into()], "", true),
-		("folder and tar under prefixes", vec![tfile.clone(), "--static".into(), "[/assets]www".into(), "--static".into(), "[/tarassets]www.tar".into()], "/assets", false),
-		("folder and tar under prefixes", vec![], "/tarassets", true),
+	let tabs = base.join(&tfile).to_string_lossy().to_string();
+	let shared_comps: Vec<String> = shared_real.canonicalize().unwrap().components().filter_map(|c| match c {
+		std::path::Component::Normal(s) => Some(s.to_string_lossy().to_string()),
+		_ => None,
+	}).collect();
+	// (name, arguments (empty = same server as before), URL prefix, tar?, working directory, root for the oracle)
+	let mounts: Vec<(&str, Vec<String>, &str, bool, PathBuf, Vec<String>)> = vec![
+		("folder at /", vec![tfile.clone(), "--static".into(), "www".into()], "", false, base.clone(), root_comps.clone()),
+		("tar at /", vec![tfile.clone(), "--static".into(), "www.tar".into()], "", true, base.clone(), root_comps.clone()),
+		("folder and tar under prefixes", vec![tfile.clone(), "--static".into(), "[/assets]www".into(), "--static".into(), "[/tarassets]www.tar".into()], "/assets", false, base.clone(), root_comps.clone()),
+		("folder and tar under prefixes", vec![], "/tarassets", true, base.clone(), root_comps.clone()),
+		("tar with link members at /, 34 MiB tar with link members under a prefix", vec![tfile.clone(), "--static".into(), "wwwlinks.tar".into(), "--static".into(), "[/big]wwwbig.tar".into()], "", true, base.clone(), root_comps.clone()),
+		("tar with link members at /, 34 MiB tar with link members under a prefix", vec![], "/big", true, base.clone(), root_comps.clone()),
+		("34 MiB tar with symbolic and hard link members", vec![tfile.clone(), "--static".into(), "[/bighard]wwwbighard.tar".into()], "/bighard", true, base.clone(), root_comps.clone()),
+		("folder spelled through a symbolic link and '..'", vec![tabs.clone(), "--static".into(), "current/../shared".into()], "", false, app.clone(), shared_comps.clone()),
+		("folder spelled through a symbolic link and '..' under a prefix", vec![tabs.clone(), "--static".into(), format!("[/assets]{}/current/../shared", app.to_string_lossy())], "/assets", false, base.clone(), shared_comps.clone()),
 	];
+	let link_names = ["link.txt", "rel.txt", "hard.txt", "d/up.txt"];
 	let mut server: Option<Server> = None;
-	for (mi, (mname, args, prefix, is_tar)) in mounts.iter().enumerate() {
+	for (mi, (mname, args, prefix, is_tar, cwd, root_comps)) in mounts.iter().enumerate() {
 		if !args.is_empty() {
-			server = Some(match Server::start(&base, args, &format!("c07-{mi}")) {
+			server = Some(match Server::start(cwd, args, &format!("c07-{mi}")) {
 				Ok(s) => s,
+				Err(e) if mname.contains("hard link") => {
+					// a server that refuses such an archive at start serves nothing from it: not a violation
+					ctx.outcome(&format!("{mname}: server refuses to start with this archive ({})", e.chars().take(80).collect::<String>()));
+					server = None;
+					continue;
+				}
 				Err(e) => {
 					eprintln!("MACHINERY: {e}");
 					std::process::exit(2);
@@ -698,6 +758,10 @@ pub fn c07(ctx: Arc<Ctx>) {
 			}
 			if ci == 0 {
 				// absolute-path smuggling through empty segments
+				// link members of a tar root name files outside the archive: never served as those files
+				for n in link_names {
+					check(&format!("{prefix}/{n}"), None, false);
+				}
 				for t in [format!("{prefix}//{}", absc.trim_start_matches('/')), format!("{prefix}///{}", absc.trim_start_matches('/')), format!("{prefix}//{}", abss.trim_start_matches('/')), format!("{prefix}///{}", abss.trim_start_matches('/')), format!("{prefix}/d//{}", absc.trim_start_matches('/')), format!("{prefix}/../www.txt"), format!("{prefix}/%2e%2e/canary.txt"), format!("{prefix}/..%2fcanary.txt"), format!("{prefix}/d/%2e%2e/%2e%2e/canary.txt"), format!("{prefix}/.%2e/canary.txt"), format!("{prefix}/%2E%2E/www-internal/canary.txt")] {
 					check(&t, None, false);
 				}
